@@ -285,6 +285,10 @@ def r4(ctx, Fs):
                     for name, a, b in macros:
                         if a <= i <= b and macro_confined(name, macros, repo, lo, hi):
                             where_ok = True
+                        # ... or on the macro definition itself (a helper macro that exists per backend): only attributes and comments in between
+                        if i < a and a - i <= 8 and all(x.strip() == '' or x.strip().startswith(('//', '#[')) for x in lines[i:a - 1]) \
+                                and macro_confined(name, macros, repo, lo, hi):
+                            where_ok = True
                 if rel == 'src/lib.rs':
                     # the mutual-exclusion block: a #[cfg(any(all(..)))] followed by compile_error!
                     j = i
